@@ -255,21 +255,26 @@ pub fn lzbuf_edge_inputs(thorough: bool) -> Vec<Input> {
     let mut l = crate::util::Lcg(0x1b0f ^ crate::util::seed());
     let noise: Vec<u8> = (0..60_000).map(|_| 0x80 | (l.byte() & 0x7f)).collect();
     let w: Vec<u8> = (0..200).map(|_| 0x20 + (l.byte() % 0x5f)).collect();
-    let (lo, hi, step) = if thorough { (55_300usize, 56_100usize, 1usize) } else { (55_500, 55_960, 2) };
-    for n1 in (lo..hi).step_by(step) {
-        // (a run first: its few codes stand for many bytes, so the block never looks "fat" and is
-        // not cut at 31 KiB but only when the code buffer is full)
-        let mut d: Vec<u8> = vec![0u8; 3000];
-        d.extend_from_slice(&noise[..n1]);
-        d.extend_from_slice(b"bc");
-        d.extend_from_slice(&w);
-        d.extend_from_slice(&noise[n1..n1 + 300]);
-        d.extend_from_slice(b"abcQ");
-        d.extend_from_slice(&noise[n1 + 300..n1 + 2300]);
-        d.extend_from_slice(b"abc");
-        d.extend_from_slice(&w);
-        d.extend_from_slice(&noise[n1 + 2300..n1 + 2350]);
-        v.push(Input { name: format!("lzbuf-edge:n{}", n1), data: d });
+    // n1 moves the code-buffer position at the two-code step byte by byte; the number of extra
+    // 258-byte run matches in front (j) shifts the phase between that position and the flag bits
+    // left in the current flag byte (a match costs 3 code bytes and one flag bit, a literal 1 and 1)
+    let (lo, hi, step) = if thorough { (55_300usize, 56_100usize, 1usize) } else { (55_500, 55_960, 1) };
+    for j in 0..8usize {
+        for n1 in (lo..hi).step_by(step) {
+            // (a run first: its few codes stand for many bytes, so the block never looks "fat" and is
+            // not cut at 31 KiB but only when the code buffer is full)
+            let mut d: Vec<u8> = vec![0u8; 3000 + 258 * j];
+            d.extend_from_slice(&noise[..n1]);
+            d.extend_from_slice(b"bc");
+            d.extend_from_slice(&w);
+            d.extend_from_slice(&noise[n1..n1 + 300]);
+            d.extend_from_slice(b"abcQ");
+            d.extend_from_slice(&noise[n1 + 300..n1 + 2300]);
+            d.extend_from_slice(b"abc");
+            d.extend_from_slice(&w);
+            d.extend_from_slice(&noise[n1 + 2300..n1 + 2350]);
+            v.push(Input { name: format!("lzbuf-edge:j{}n{}", j, n1), data: d });
+        }
     }
     v
 }
